@@ -34,7 +34,7 @@ var c05Names = []string{"a", "b", "outerv", "fmk"}
 
 func c05Eval(cs c05Case) *Case {
 	// includer variables
-	data := map[string]any{"outerv": "OUTER", "src": "SRCVAL", "num": 42, "lst": []any{1, "two"}, "obj": map[string]any{"k": "v"}, "a": "A-OUTER"}
+	data := map[string]any{"outerv": "OUTER", "src": "SRCVAL", "num": 42, "lst": []any{1, "two"}, "obj": map[string]any{"k": "v"}, "a": "A-OUTER", "todo": "[ ] Buy milk"}
 	var attrs []string
 	want := map[string]string{"outerv": "OUTER", "a": "A-OUTER", "b": "", "fmk": ""}
 	for _, p := range cs.props {
@@ -57,6 +57,19 @@ func c05Eval(cs c05Case) *Case {
 		case "bound-obj":
 			attrs = append(attrs, fmt.Sprintf(`:%s="obj"`, p.name))
 			want[p.name] = "map[k:v]"
+		// a prop whose text IS a JSON document is decoded; one that only BEGINS like JSON is the string it is
+		case "static-json":
+			attrs = append(attrs, fmt.Sprintf(`%s='[1,"two"]'`, p.name))
+			want[p.name] = "[1 two]"
+		case "static-jsonish":
+			attrs = append(attrs, fmt.Sprintf(`%s="[1] Introduction"`, p.name))
+			want[p.name] = "[1] Introduction"
+		case "bound-jsonish":
+			attrs = append(attrs, fmt.Sprintf(`:%s="todo"`, p.name))
+			want[p.name] = "[ ] Buy milk"
+		case "interp-jsonish":
+			attrs = append(attrs, fmt.Sprintf(`%s="{} is {{ src }}"`, p.name))
+			want[p.name] = "{} is SRCVAL"
 		}
 	}
 	fm := ""
@@ -137,7 +150,7 @@ func c05Eval(cs c05Case) *Case {
 				switch p.form {
 				case "bound-num":
 					ty = "int"
-				case "bound-list":
+				case "bound-list", "static-json":
 					ty = "[]interface {}"
 				case "bound-obj":
 					ty = "map[string]interface {}"
@@ -183,7 +196,7 @@ func c05Eval(cs c05Case) *Case {
 
 func c05Cases() []c05Case {
 	var out []c05Case
-	forms := []string{"omit", "static", "interp", "bound", "bound-num", "bound-list", "bound-obj"}
+	forms := []string{"omit", "static", "interp", "bound", "bound-num", "bound-list", "bound-obj", "static-json", "static-jsonish", "bound-jsonish", "interp-jsonish"}
 	for _, fa := range forms {
 		for _, fb := range []string{"omit", "static", "bound"} {
 			for _, fmk := range [][]string{nil, {"fmk"}, {"a"}, {"a", "fmk"}, {"outerv"}} {
